@@ -1,7 +1,6 @@
 package main
 
 import (
-	"strconv"
 	"bytes"
 	"context"
 	"encoding/json"
@@ -12,6 +11,7 @@ import (
 	"net/http/httptest"
 	"os"
 	"sort"
+	"strconv"
 	"strings"
 
 	"github.com/getkin/kin-openapi/openapi3"
@@ -39,9 +39,9 @@ type C13Case struct {
 	CT          string     `json:"ct"`
 	Skip        bool       `json:"skip_defaults"`
 	ExclRO      bool       `json:"excl_ro"`
-	Security    [][]string `json:"security"`    // requirements (scheme names); "undeclared" is not declared
-	AuthOK      []string   `json:"auth_ok"`     // schemes the callback accepts
-	AuthReads   bool       `json:"auth_reads"`  // the callback consumes the request body
+	Security    [][]string `json:"security"`     // requirements (scheme names); "undeclared" is not declared
+	AuthOK      []string   `json:"auth_ok"`      // schemes the callback accepts
+	AuthReads   bool       `json:"auth_reads"`   // the callback consumes the request body
 	OtherBranch []string   `json:"other_branch"` // member names that only a non-matching oneOf/anyOf branch would add
 	// the request's GetBody: "" none (as for a server-side request), "ok" replays the body, "fails" returns an error (a body that cannot be replayed)
 	GetBody string `json:"get_body,omitempty"`
